@@ -81,6 +81,11 @@ def check(case, ctx):
         ctx.le("X, Y, Z equal the independent degree-12 synthesis (nT)", float(np.abs(got - ref).max()), tol,
                {"lat": lat, "lon": lon, "h_km": h, "date": date, "got": got, "ref": ref}, route=route)
         ctx.ok("coefficient file of the epoch containing the date is used", str(w.wmm_filename).startswith(name), {"date": date, "file": w.wmm_filename, "expected": name}, route=route)
+        acc = call(lambda: (dict(w.magnetic_elements), np.array(w.geodetic_vector, float)))
+        if ctx.returned(acc, clause="no-exception[magnetic_elements / geodetic_vector]", route=route):
+            md, gv = acc.value
+            ctx.le("magnetic_elements['X'/'Y'/'Z'] and geodetic_vector hold the components of this evaluation (nT)",
+                   float(max(np.abs(np.array([md["X"], md["Y"], md["Z"]], float) - ref).max(), np.abs(gv - ref).max())), tol, {"dict": [md["X"], md["Y"], md["Z"]], "vector": gv, "ref": ref}, route=route)
     if "w" not in _reused:
         _reused["w"] = WMM()
     out = call(lambda: _reused["w"].magnetic_field(lat, lon, h, date=d_arg))
